@@ -367,3 +367,32 @@ Theorem C11_two_tokens_same_account :
    need g 0%N 1050 = 30 /\ locked_bank s 0%N 1050 = 30).
 Proof. exact tw_history_ok. Qed.
 Print Assumptions C11_two_tokens_same_account.
+
+(** The bank's LockedCoins also counts the account's own UNVESTED coins.  While the
+    account's own vesting is not behind its own lockup (in particular once it is
+    fully vested) the merged account locks, by the bank's reckoning, everything the
+    bank held locked of the own grant plus the unreleased part of the share ... *)
+Theorem C11_merge_bank_locked_partial :
+  forall va gs gl gv c va' t,
+    acct_ok va -> grant_ok gl gv c -> add_grant true va gs gl gv c = Some va' ->
+    unlocked_ev va t <= vested_ev va t ->
+    locked_ref va t + (c - ev gs gl t) <= locked_coins va' t.
+Proof. exact merge_bank_locked. Qed.
+Print Assumptions C11_merge_bank_locked_partial.
+
+(** ... without that hypothesis it does not (the clawback account's spendable
+    amount is min(unlocked, vested) over the merged schedules): own coins that are
+    unlocked but unvested and a share that is vested but locked free each other.
+    The lockup obligations of C11 are still met (last clause); what becomes
+    spendable early are coins the bank held back as unvested. *)
+Theorem C11_merge_bank_locked_unvested_refuted :
+  exists va',
+    add_grant true uv_acct 1100 [(900, 50)] [(0, 50)] 50 = Some va' /\
+    acct_ok uv_acct /\ grant_ok [(900, 50)] [(0, 50)] 50 /\
+    locked_coins uv_acct 1500 = 100 /\ locked_ref uv_acct 1500 = 100 /\
+    50 - ev 1100 [(900, 50)] 1500 = 50 /\
+    locked_coins va' 1500 = 100 /\
+    ~ (locked_ref uv_acct 1500 + (50 - ev 1100 [(900, 50)] 1500) <= locked_coins va' 1500) /\
+    (a_orig uv_acct - unlocked_ev uv_acct 1500) + (50 - ev 1100 [(900, 50)] 1500) <= locked_coins va' 1500.
+Proof. exact merge_bank_locked_unvested_refuted. Qed.
+Print Assumptions C11_merge_bank_locked_unvested_refuted.
